@@ -337,7 +337,7 @@ fn read(rng: &mut Rng, ctx: &mut Ctx) {
                 let (zero, _) = read_line(&b, skip, hsh);
                 let mut c = Case::new(read_cmd(skip, hsh, &b), at.clone()); c.tags = vec![format!("offset-read skip{} hash{}", skip as u8, hsh as u8)];
                 if at != zero { let msg = format!("read from stream position {} (skip={}, hash={}) differs from the read at position 0: {} vs {}", pre, skip, hsh, &at[..at.len().min(120)], &zero[..zero.len().min(120)]);
-                    if skip { c.fail("C10", msg.clone()); } if hsh { c.fail("C11", msg.clone()); } if !skip { c.fail("C01", msg.clone()); c.fail("C04", msg.clone()); } c.fail("C05", msg.clone()); c.fail("C12", msg); }
+                    if skip { c.fail("C10", msg.clone()); } if hsh { c.fail("C11", msg.clone()); } if !skip { c.fail("C01", msg.clone()); c.fail("C03", msg.clone()); c.fail("C04", msg.clone()); } c.fail("C05", msg.clone()); c.fail("C12", msg); }
                 ctx.push(c);
             }
         }
@@ -345,10 +345,12 @@ fn read(rng: &mut Rng, ctx: &mut Ctx) {
 }
 
 fn ver(rng: &mut Rng, ctx: &mut Ctx) {
-    let thresholds = [(0,2),(1,0),(1,2),(1,3),(1,4),(1,5),(2,0),(2,1),(2,2),(3,0),(3,2),(3,3),(3,5),(3,6),(3,7),(3,8),(3,9),(3,10),(3,11),(3,12),(3,13),(3,14),(3,15),(3,16)];
+    let thresholds = [(0,0),(0,1),(0,255),(1,255),(254,255),(255,0),(255,1),(255,128),(255,255),(128,0),(0,2),(1,0),(1,2),(1,3),(1,4),(1,5),(2,0),(2,1),(2,2),(3,0),(3,2),(3,3),(3,5),(3,6),(3,7),(3,8),(3,9),(3,10),(3,11),(3,12),(3,13),(3,14),(3,15),(3,16)];
     let one = |a: u8, b: u8, m: u8, mi: u8, ctx: &mut Ctx| {
-        let v = slippi::Version(a, b, 0); let exp = (a, b) >= (m, mi); let got = v.gte(m, mi); let lt = v.lt(m, mi);
-        let mut c = Case::new(format!("gte {} {} {} {}", a, b, m, mi), format!("{} {}", got, lt)); c.tags = vec!["gte".into()];
+        let v = slippi::Version(a, b, 0); let exp = (a, b) >= (m, mi);
+        let (got, lt) = match std::panic::catch_unwind(|| (v.gte(m, mi), v.lt(m, mi))) { Ok(x) => x,
+            Err(_) => { let mut c = Case::new(format!("gte {} {} {} {}", a, b, m, mi), "panic".into()); c.tags = vec!["gte".into()]; c.fail("C20", format!("gte/lt({},{}) on {}.{} panicked: the comparison is not total", m, mi, a, b)); ctx.push(c); return; } };
+        let mut c = Case::new(format!("gte {} {} {} {}", a, b, m, mi), format!("{} {}", got, lt)); c.tags = vec!["gte".into(), if m == 255 || m == 0 || mi == 255 || mi == 0 { "extreme-threshold".into() } else { "gate-threshold".into() }];
         if got != exp || lt == got { c.fail("C20", format!("gte({},{}) on {}.{} = {}, lt = {}", m, mi, a, b, got, lt)); }
         ctx.push(c);
     };
@@ -409,6 +411,11 @@ fn roll(rng: &mut Rng, ctx: &mut Ctx) {
         // one frame id carried by very many rows (around the widths of small counters), among others
         if k % 20 == 11 { let m = [255usize, 256, 257, 300, 65, 128][(k / 20) % 6]; ids = vec![-123, -122]; ids.extend(std::iter::repeat(-121).take(m)); ids.extend([-120, -121, -119]); }
         if k % 40 == 39 { ids.reverse(); }
+        // the same table numbered far from -123 (the tail of a very long game, a renumbered table, a file with large Frame Start ids): every id
+        // shifted by one base, or only the ids from some row on (so that the table straddles the base), around powers of two up to 2^26
+        if k % 8 == 5 && !ids.is_empty() { let p = [16u32, 20, 22, 23, 24, 26, 21, 18][(k / 8) % 8]; let base = (1i32 << p) - [0, 1, 123, 124, 200][(k / 64) % 5];
+            let from = if (k / 8) % 3 == 2 { ids.len() / 2 } else { 0 }; let lo = ids[from..].iter().copied().min().unwrap_or(-123);
+            for x in ids[from..].iter_mut() { *x = *x - lo + base + (k % 3) as i32 - 1; } }
         // the extreme id needs a 2 GiB table: only in the thorough tier
         if ctx.thorough && k == 7 { ids = vec![i32::MAX, -123, i32::MAX]; }
         // the mask is a function of the id column alone: the other columns are present in every other case (as in a game of version 2.2+ / 3.0+)
@@ -421,7 +428,7 @@ fn roll(rng: &mut Rng, ctx: &mut Ctx) {
             let exp: Vec<bool> = (0..ids.len()).map(|i| if name == "first" { (0..i).any(|j| ids[j] == ids[i]) } else { (i+1..ids.len()).any(|j| ids[j] == ids[i]) }).collect();
             let extreme = ids.iter().any(|x| *x > 1_000_000);
             let mut c = Case::new(format!("{} {} {}", if extreme { "rollx" } else { "roll" }, name, if ids.is_empty() { String::new() } else { ids.iter().map(|x| x.to_string()).collect::<Vec<_>>().join(",") }), String::new());
-            c.tags = vec![format!("len{}", len.min(6)), format!("repeats{}", exp.iter().filter(|b| **b).count().min(4))];
+            c.tags = vec![format!("len{}", len.min(6)), format!("repeats{}", exp.iter().filter(|b| **b).count().min(4)), format!("maxid:2^{}", ids.iter().copied().max().map_or(0, |m| if m <= 0 { 0 } else { 32 - (m as u32).leading_zeros() }))];
             match got { Err(_) => { c.impl_out = "panic".into(); c.fail("C15", "rollbacks() panicked on ids >= -123"); }
                 Ok(m) => { c.impl_out = format!("ok {}", m.iter().map(|b| if *b { '1' } else { '0' }).collect::<String>()); if m != exp { c.fail("C15", format!("mask {:?} != reference {:?} for ids {:?}", m, exp, ids)); } } }
             ctx.push(c);
@@ -731,7 +738,12 @@ fn ubj(rng: &mut Rng, ctx: &mut Ctx) {
         if k % 20 == 19 { let d = [127usize, 128, 126, 129, 120 + (rng.next() % 20) as usize, 1000][(k / 20) % 6]; body.clear(); for _ in 0..d - 1 { body.extend(b"U\x01a{"); } for _ in 0..d - 1 { body.push(b'}'); } clean = d <= 127; }
         if k % 40 == 19 { // wide but shallow: many maps in total, little nesting
             let n = [127usize, 200, 126, 111, 180][(k / 40) % 5] + (rng.next() % 3) as usize; body.clear(); for i in 0..n { body.extend(b"U\x03"); body.extend(format!("{:03}", i).as_bytes()); body.push(b'{'); if i % 7 == 0 { body.extend(b"U\x01x{U\x01yl\x00\x00\x00\x01}"); } body.push(b'}'); } clean = true; }
-        let structured = k % 20 == 19; // the deep and the wide trees stay as built
+        // a value that is one marker byte repeated very many times (every UBJSON marker in turn, then every other byte): whatever the reader makes of the
+        // byte — a container it knows, one it does not, a scalar — it must come back with a result; recursion on input-controlled depth is an abort
+        let run = k % 16 == 7;
+        if run { const MARKERS: &[u8] = b"[{#$NZTFiUIlLdDCSH]}"; let j = k / 16; let mk = if j < MARKERS.len() { MARKERS[j] } else { (j - MARKERS.len()) as u8 }; let depth = if ctx.thorough { 1_000_000 } else { 400_000 };
+            body.clear(); body.extend(b"U\x01a"); body.extend(std::iter::repeat(mk).take(depth)); clean = false; }
+        let structured = k % 20 == 19 || run; // the deep and the wide trees stay as built
         if k % 9 == 8 && !structured && !body.is_empty() { let i = (rng.next() as usize) % body.len(); body[i] = (rng.next() >> 8) as u8; clean = false; }
         // a length written with another UBJSON integer type (`l` int32, `i` int8, `I` int16, `L` int64) — negative, zero, small, huge — where the
         // format subset has `U`: for a string value or for a key
@@ -789,11 +801,17 @@ fn peppi_suite(rng: &mut Rng, ctx: &mut Ctx) {
     let comps = [None, Some(arrow2::io::ipc::write::Compression::LZ4), Some(arrow2::io::ipc::write::Compression::ZSTD)];
     let go = GenOpts { max_frames: if ctx.thorough { 25 } else { 7 }, newer: false, force: None };
     for k in 0..ctx.n {
-        let (mut r, tags) = gen_replay(rng, k, &go);
+        let (mut r, mut tags) = gen_replay(rng, k, &go);
         if k == 0 { r = simple((3, 16, 0), &[], 2, &[], rng); } // the recorded finding, in every run
         // metadata nested around the deepest level the .slp reader accepts (127 maps): whatever it accepts must survive the JSON copy
         let deep = if k % 12 == 5 { Some([127usize, 128, 126, 129][(k / 12) % 4]) } else { None };
         if let Some(d) = deep { let mut m = vec![]; for _ in 0..d - 1 { m.extend(b"U\x01a{"); } for _ in 0..d - 1 { m.push(b'}'); } r.metadata = Some(m); }
+        // a metadata tree whose JSON copy is large: just below / at / above 64 KiB and well beyond (members of an archive have no size limit
+        // other than tar's; a reader that buffers "small" members must not cut this one)
+        if k % 10 == 6 { let target = [65_537usize, 65_536, 300_000, 65_535, 70_000, 131_073][(k / 10) % 6]; let per = 11 + 200 + 1; let n = (target - 2) / per; let mut m = vec![];
+            let used = 2 + n * per - 1; let last = 200 + target.saturating_sub(used).min(55);
+            for i in 0..n { let key = format!("k{:05}", i); m.push(b'U'); m.push(6); m.extend(key.as_bytes()); let vl = if i + 1 == n { last } else { 200 }; m.extend(b"SU"); m.push(vl as u8); m.extend(std::iter::repeat(b'a' + (i % 26) as u8).take(vl)); }
+            r.metadata = Some(m); tags.push(format!("big-metadata:{}", target)); }
         let comp = comps[k % 3]; let hash = k % 2 == 0;
         // every other hashed replay gets a digest with one or two leading zero hex digits (the random seed of the start block is varied until it
         // has): the stored string is 16 digits wide whatever the value
@@ -819,6 +837,17 @@ fn peppi_suite(rng: &mut Rng, ctx: &mut Ctx) {
                 let mut bw = std::io::BufWriter::with_capacity(1 << 22, Vec::new());
                 let r = peppi::io::peppi::write(&mut bw, g, Some(&peppi::io::peppi::ser::Opts { compression: comp }));
                 if r.is_err() || bw.get_ref() != &buf { let m = format!(".slpp written through a caller-side BufWriter: {} of {} bytes have reached the sink when write returns ({:?})", bw.get_ref().len(), buf.len(), r.err().map(|e| e.to_string())); fails.push(("C02".into(), m.clone())); fails.push(("C18".into(), m)); } }
+            // history: a write that fails part-way (the caller's sink reports an error in one of the last write calls: end-of-archive marker, padding,
+            // contents or header of the last members) leaves nothing behind: the next write on the same thread gives the same archive as ever
+            if (k + k / 5) % 3 == 0 { let o = Some(peppi::io::peppi::ser::Opts { compression: comp });
+                let g = slippi::read(Cursor::new(&b), Some(&read_opts(false, hash))).unwrap(); let mut cnt = crate::suites2::ShortSink::new(1 << 30, None, 0); let _ = peppi::io::peppi::write(&mut cnt, g, o.as_ref());
+                let calls = cnt.calls(); let at = calls.saturating_sub(1 + (k / 3) % 8);
+                let g = slippi::read(Cursor::new(&b), Some(&read_opts(false, hash))).unwrap(); let mut bad = crate::suites2::ShortSink::new(1 << 30, Some(at), 0);
+                let r1 = std::panic::catch_unwind(std::panic::AssertUnwindSafe(|| peppi::io::peppi::write(&mut bad, g, o.as_ref()).is_ok()));
+                if r1.is_err() { fails.push(("C06".into(), ".slpp writer panicked on a sink error".into())); }
+                let g = slippi::read(Cursor::new(&b), Some(&read_opts(false, hash))).unwrap(); let mut buf3 = vec![]; let r3 = peppi::io::peppi::write(&mut buf3, g, o.as_ref());
+                if r3.is_err() || buf3 != buf { let m = format!("after a write that failed in sink call {} of {}, writing the game on the same thread gives a different archive ({} vs {} bytes)", at, calls, buf3.len(), buf.len()); fails.push(("C02".into(), m.clone())); fails.push(("C18".into(), m)); }
+                else if let Ok(g2) = peppi::io::peppi::read(Cursor::new(&buf3), None) { let mut o2 = vec![]; if slippi::write(&mut o2, &g2).is_err() || o2 != b { fails.push(("C02".into(), "slp -> slpp -> slp differs from the original after an earlier failed write".into())); } } }
             // determinism: write the same game again (once per run across a tick of the wall clock: nothing in the archive may depend on when it is written)
             if k == 1 { std::thread::sleep(std::time::Duration::from_millis(1100)); }
             { let g = slippi::read(Cursor::new(&b), Some(&read_opts(false, hash))).unwrap(); let mut buf2 = vec![]; let _ = peppi::io::peppi::write(&mut buf2, g, Some(&peppi::io::peppi::ser::Opts { compression: comp })); if buf2 != buf { fails.push(("C18".into(), "writing the same game twice gives different bytes".into())); } }
@@ -835,7 +864,7 @@ fn peppi_suite(rng: &mut Rng, ctx: &mut Ctx) {
                     if g2.hash != h0 { fails.push(("C02".into(), "stored hash changed through .slpp".into())); fails.push(("C11".into(), "stored hash not carried unchanged through .slpp".into())); }
                     if g2.quirks.map(|q| q.double_game_end) != q0 { fails.push(("C02".into(), "quirk flags changed through .slpp".into())); }
                     if g2.metadata != md0 { fails.push(("C16".into(), "metadata tree / key order changed through .slpp".into())); } }
-                Err(e) => { fails.push(("C02".into(), format!("written .slpp cannot be read: {}", e))); fails.push(("C18".into(), format!("the reader rejects the archive the writer produced: {}", e))); } }
+                Err(e) => { fails.push(("C02".into(), format!("written .slpp cannot be read: {}", e))); fails.push(("C18".into(), format!("the reader rejects the archive the writer produced: {}", e))); if md0.is_some() { fails.push(("C16".into(), format!("the metadata tree does not survive .slp -> .slpp: the reader rejects the written archive: {}", e))); } } }
             // skip-frames option of the .slpp reader
             match peppi::io::peppi::read(Cursor::new(&buf), Some(&peppi::io::peppi::de::Opts { skip_frames: true })) {
                 Ok(g3) => { if start_json(&g3.start) != start_json(&start) || end_json(&g3.end) != end_json(&endc) || g3.metadata != md0 { fails.push(("C10".into(), ".slpp skip-frames: start/end/metadata differ".into())); } if g3.frames.id.len() != 0 { fails.push(("C10".into(), ".slpp skip-frames returned frames".into())); }
